@@ -307,7 +307,14 @@ class Rejector(Client):
         if k == "bound":
             if not isinstance(v, (int, float)) or isinstance(v, bool):
                 return {"op": "param_min", "p": pid, "value": 0}
-            kk = r.choice(["min_above", "max_below", "nonnumeric"])
+            kk = r.choice(["min_above", "max_below", "nonnumeric", "zero", "zero"])
+            if kk == "zero":
+                # a bound of exactly 0 on the wrong side of the value
+                if v > 0:
+                    return {"op": "param_max", "p": pid, "value": r.choice([0, 0.0])}
+                if v < 0:
+                    return {"op": "param_min", "p": pid, "value": r.choice([0, 0.0])}
+                return None
             if kk == "min_above":
                 return {"op": "param_min", "p": pid, "value": v + 0.5}
             if kk == "max_below":
